@@ -11,11 +11,23 @@ use crate::util::*;
 
 pub enum Obj {
     Pw(PacketWindowFilter),
+    SsCtx(crate::stream::ss::SsCtx),
+    Stream(crate::stream::Boxed),
 }
 
-#[derive(Default)]
 pub struct Interp {
     pub objs: HashMap<String, Obj>,
+    pub rt: tokio::runtime::Runtime,
+}
+
+impl Default for Interp {
+    fn default() -> Self {
+        Interp { objs: HashMap::new(), rt: tokio::runtime::Builder::new_current_thread().enable_all().build().unwrap() }
+    }
+}
+
+fn kv<'a>(t: &[&'a str], key: &str) -> Option<&'a str> {
+    t.iter().find_map(|x| x.strip_prefix(key).and_then(|r| r.strip_prefix('=')))
 }
 
 pub fn install_quiet_panic_hook() {
@@ -90,6 +102,56 @@ impl Interp {
                     Ok(a) => format!("ok {} rest={}", show_addr(&a), hex(&src)),
                     Err(_) => "err".into(),
                 }
+            }
+            ["ss.cctx", name, ..] => {
+                let (Some(c), Some(p)) = (kv(t, "cipher"), kv(t, "password")) else { return "bad-op".into() };
+                match crate::stream::ss::client_ctx(c, p) {
+                    Ok(ctx) => {
+                        self.objs.insert(name.to_string(), Obj::SsCtx(ctx));
+                        "ok".into()
+                    }
+                    Err(_) => "err".into(),
+                }
+            }
+            ["ss.sctx", name, ..] => {
+                let (Some(c), Some(p), Some(u)) = (kv(t, "cipher"), kv(t, "password"), kv(t, "users")) else { return "bad-op".into() };
+                match crate::stream::ss::server_ctx(c, p, &crate::stream::parse_users(u)) {
+                    Ok(ctx) => {
+                        self.objs.insert(name.to_string(), Obj::SsCtx(ctx));
+                        "ok".into()
+                    }
+                    Err(_) => "err".into(),
+                }
+            }
+            ["ss.new", name, ctx, addr] => {
+                let a = if *addr == "-" { None } else { parse_addr(addr) };
+                let Some(Obj::SsCtx(c)) = self.objs.get(*ctx) else { return "bad-op".into() };
+                match crate::stream::ss::new_stream(c, a) {
+                    Ok(o) => {
+                        self.objs.insert(name.to_string(), Obj::Stream(o));
+                        "ok".into()
+                    }
+                    Err(_) => "err".into(),
+                }
+            }
+            ["st.enc", name, payload, ..] => {
+                let (Some(Obj::Stream(o)), Some(p)) = (self.objs.get_mut(*name), unhex(payload)) else { return "bad-op".into() };
+                let item = match kv(t, "to").and_then(parse_addr) {
+                    Some(a) => crate::stream::EncItem::Udp(p, a),
+                    None => crate::stream::EncItem::Tcp(p),
+                };
+                match o.encode(item) {
+                    Ok(w) => hex(&w),
+                    Err(_) => "err".into(),
+                }
+            }
+            ["st.feed", name, piece, ..] => {
+                let (Some(Obj::Stream(o)), Some(p)) = (self.objs.get_mut(*name), unhex(piece)) else { return "bad-op".into() };
+                o.feed(&self.rt, &p).text()
+            }
+            ["st.eof", name] => {
+                let Some(Obj::Stream(o)) = self.objs.get_mut(*name) else { return "bad-op".into() };
+                o.eof(&self.rt).text()
             }
             ["addr.accept", a] => {
                 let Some(a) = parse_addr(a) else { return "bad-op".into() };
